@@ -352,7 +352,24 @@ def check(prog, res, tier):
                     idx = idxs[-1] if idxs else None
                     fi_ev = [e for e in p.events if e.kind == 'for-iter' and e.under(mfi.short)]
                     itv = fi_ev[-1].data['iterable'] if fi_ev else None
-                    if isinstance(idx, TupleV) and isinstance(idx.items[0], IntV) and isinstance(itv, IterV):
+                    nv = st.canon(item.segs[0].val)
+                    org = None
+                    for sy in nv.syms():
+                        o_ = p.interp.origin.get(sy)
+                        if isinstance(o_, tuple) and o_ and o_[0] == 'enumerate':
+                            org = (sy, o_)
+                    if org is not None and not (isinstance(idx, TupleV) and isinstance(itv, IterV)):
+                        # the element number was produced by an enumerate() elsewhere (e.g. a list of used elements built first)
+                        sy, (_, start, src, _el) = org
+                        pos = Lin.sym(sy) - Lin.of(start)
+                        par = getattr(src, 'parent', None)
+                        if par is not None and par[1] is not None:
+                            pos = pos + Lin.of(par[1])
+                        fails += need_eq0(st, item.segs[0].val - pos - 1,
+                                          f'bit-list position {st.canon(pos)} is checked as element {st.canon(item.segs[0].val)} '
+                                          f'(position i holds element i+1)')
+                        fails += need_ge0(st, pos - 1, 'bit 1 (position 0) is looked up although it has no configuration')
+                    elif isinstance(idx, TupleV) and isinstance(idx.items[0], IntV) and isinstance(itv, IterV):
                         # position of the tested bit in the unpacked bit list = counter - start + slice offset
                         pos = idx.items[0].lin - getattr(itv, 'enum_start', Lin.const(0))
                         src = itv.src
